@@ -357,6 +357,11 @@ fn path_value(input: &[u8]) -> IResult<&[u8], PathValue<'_>> {
             PathValue::Number(Number::Int64(v))
         }),
         map(double, |v| PathValue::Number(Number::Float64(v))),
+        // `double` reads `inf` only without a sign; a literal that overflows to negative infinity prints as `-inf`
+        value(
+            PathValue::Number(Number::Float64(f64::NEG_INFINITY)),
+            preceded(char('-'), tag_no_case("inf")),
+        ),
         map(string, PathValue::String),
     ))(input)
 }
